@@ -6,6 +6,7 @@ from checks.metrics_common import MetricsCheck
 class C12(MetricsCheck):
     pid = "C12"
     title = "Every trace the metrics dump consumes is produced during collection"
+    lf_any_leader = True
     rule = ("class-M specs x hash-seed pool (registration order and set-built trace lists differ per seed). The emitted "
             "metrics program runs against a SIMULATED TRACE STORE: endCollect writes <prefix>-<rank>-<type>.csv for every "
             "registration since beginCollect, filterTrace reads two names and writes one, buffetTraffic/cacheTraffic/numIters "
@@ -17,7 +18,9 @@ class C12(MetricsCheck):
             "(spec, text); non-trivial = the dump reads at least one trace name or queries an intersector")
     assumptions = ["trace-file semantics of the stand-ins as stated in DESIGN 4.2 (endCollect materialises registered traces)",
                    "class-M bindings follow the accelerator patterns (rank orders concordant with the loop order; an eager "
-                   "subtree is one rank evicted on a loop rank above it)"]
+                   "subtree is one rank evicted on a loop rank above it)",
+                   "leader-follower leaders other than the first operand are generated here (only traces are judged; "
+                   "the tensors such programs compute are known finding C11-LF-ORDER and are not looked at)"]
 
     def nontrivial(self, spec, meta):
         return False
